@@ -11,7 +11,7 @@ import re
 
 from . import mirlib as M
 from . import symex as S
-from .common import BaseModel, run_fn, ret_paths, variant_of
+from .common import argval, variant_of, BaseModel, run_fn, ret_paths, variant_of
 
 INLINE = r"match_function::MatchFn::(new|inner)$|match_function::MatchFunction::(new|call)$"
 
@@ -36,12 +36,26 @@ ASCII_KIND = {  # the predicate each POSIX class is built from (as documented by
 }
 
 
+# a conversion into a class predicate, spelled x.try_into() or MatchFn::try_from(x)
+CONV_RX = r"TryInto<internal::match_function::MatchFn>>::try_into$|<internal::match_function::MatchFn as std::convert::TryFrom<.*>>::try_from$"
+
+
 def eval_closure(F, clo, nargs=1):
     """Enumerate the paths of a closure body.  Returns list of (conds, result term).
     A function item used as predicate (`MatchFn::new(char::is_numeric)`) is one atom."""
-    if clo[0] == "fn":
-        return [([], ("app", clo[2] or clo[1], (("sym", "ch"),)))]
+    if clo[0] == "fn" and clo[1] not in F.fns:
+        return [([], ("app", clo[2] or clo[1], (("sym", "ch"),)))]      # a std / external predicate: one atom
     cfn = F.fns[clo[1]]
+    if clo[0] == "fn":
+        # a function of the crate used as predicate: its body is the predicate
+        ex = S.Engine(cfn, F, BaseModel(), cut_edges=cfn.back_edges(), inline=lambda name: re.search(INLINE, name) is not None or "{closure" in name, max_depth=8)
+        p = S.Path()
+        for i in range(nargs):
+            p.locals[(ex.fid, 1 + i)] = ("sym", ["ch", "arg2", "arg3"][i])
+        out = []
+        for q in ex.run(0, p):
+            out.append((q.conds, q.end[1]) if q.end[0] == "return" else (q.conds, ("bad-end",) + tuple(q.end[:1])))
+        return out
     ex = S.Engine(cfn, F, BaseModel(), cut_edges=cfn.back_edges(), inline=lambda name: re.search(INLINE, name) is not None or "{closure" in name, max_depth=8)
     p = S.Path()
     p.locals[(ex.fid, 1)] = ("ref", ("loc", clo, ()), False)
@@ -275,7 +289,7 @@ def analyze(ctx, want):
     conv = set()
     for p in paths:
         for c, o in p.conds:
-            if c[0] == "isvar" and c[1][0] == "app" and "try_into" in c[1][1]:
+            if c[0] == "isvar" and c[1][0] == "app" and re.search(CONV_RX, c[1][1]):
                 conv.add(S.vstr(c[1][2][0]))
     ob("C08.b", "binary-op:operands-are-lhs-and-rhs", any("lhs" in x for x in conv) and any("rhs" in x for x in conv), "converted operands: %s" % sorted(conv), fn.loc())
 
@@ -313,7 +327,7 @@ def analyze(ctx, want):
         key = "item:%s%s:negated=%s" % (variant, (":%s:inner-negated=%s" % sub) if sub else "", oneg)
         if variant in ("Literal", "Unicode", "Perl", "Bracketed", "Union"):
             # delegation: the inner predicate is the stand-alone conversion of the same node
-            deleg = [(c, o) for c, o in p.conds if c[0] == "isvar" and c[1][0] == "app" and "try_into" in c[1][1]]
+            deleg = [(c, o) for c, o in p.conds if c[0] == "isvar" and c[1][0] == "app" and re.search(CONV_RX, c[1][1])]
             ok_d = len(deleg) == 1 and deleg[0][1] is True
             callee = deleg[0][0][1][1] if deleg else ""
             target = {"Literal": "Literal", "Unicode": "ClassUnicode", "Perl": "ClassPerl", "Bracketed": "ClassBracketed", "Union": "ClassSetUnion"}[variant]
@@ -334,7 +348,7 @@ def analyze(ctx, want):
                 ok = S.mentions(r, lambda x: x == inner) and clo[0] != "closure"
                 ob("C08.b", key, ok, "plain item returns the delegated predicate unchanged: %s" % S.vstr(r)[:100], fn.loc())
             continue
-        if clo[0] != "closure":
+        if clo[0] not in ("closure", "fn"):
             ob("C08.b", key, False, "returns %s" % S.vstr(r)[:100], fn.loc())
             continue
         tt = eval_closure(F, clo)
@@ -473,7 +487,7 @@ def analyze(ctx, want):
                 ok, det = compare(atoms, table, lambda e: not e["nl"] and not e["cr"], {"nl": "'\\n' Eq ch", "cr": "'\\r' Eq ch"}) if atoms is not None else (False, table)
                 ob("C08.b", "ast:dot-matches-all-but-newline-and-cr", ok, det, fn.loc())
             elif v in ("Literal", "ClassUnicode", "ClassPerl", "ClassBracketed"):
-                deleg = [(c, o) for c, o in p.conds if c[0] == "isvar" and c[1][0] == "app" and "try_into" in c[1][1]]
+                deleg = [(c, o) for c, o in p.conds if c[0] == "isvar" and c[1][0] == "app" and re.search(CONV_RX, c[1][1])]
                 ok = len(deleg) == 1 and {"Literal": "Literal", "ClassUnicode": "ClassUnicode", "ClassPerl": "ClassPerl", "ClassBracketed": "ClassBracketed"}[v] in deleg[0][0][1][1]
                 ob("C08.c", "ast:%s-delegates" % v, ok, "converted by %s" % (M.short_name(deleg[0][0][1][1]) if deleg else None), fn.loc())
             elif v == "Empty":
@@ -486,7 +500,7 @@ def analyze(ctx, want):
         fn, ex, paths = run(pat)
         n = 0
         for p in paths:
-            for c in p.calls(r"TryInto<internal::match_function::MatchFn>>::try_into$"):
+            for c in p.calls(CONV_RX):
                 n += 1
                 a = c[3][0]
                 ok = a[0] == "tuple" and len(a[1]) == 2
@@ -501,56 +515,64 @@ def analyze(ctx, want):
             ctx.floor("C08.b", "conversions in " + M.short_name(fn.name), n, 2)
 
     # =============================================================== union
-    fn, ex, paths = run(r"TryFrom<&regex_syntax::ast::ClassSetUnion>>::try_from$", desugar=None)   # the fold is read as a term: seed and step closure are analysed separately
-    for p in ret_paths(paths):
-        tf = p.calls(r"Iterator>::try_fold::")
-        ok = len(tf) == 1
-        if ok:
-            it = tf[0][4][2][0] if tf[0][4] and tf[0][4][0] == "app" else tf[0][3][0]
-            its = S.vstr(it)
-            ad2 = [M.short_name(M.call_name(t)) for bb, t in fn.calls(r"Iterator>::(rev|skip|take|filter|filter_map|step_by|skip_while|take_while|chain|zip|cycle)\b")]
-            ok_it = "items" in its and not re.search(r"rev|skip|take|filter|step_by", its) and not ad2
-            seed = tf[0][3][1]
-            sclo = unwrap_ok(seed)
-            a, t = truth_table(eval_closure(F, sclo), lambda v: None) if sclo[0] == "closure" else (None, "seed is not a closure")
-            ok_seed = a == [] and t == {(): False}
-            ob("C08.b", "union:folds-over-all-items", ok_it, "try_fold over %s" % its[:100], fn.loc())
-            ob("C08.b", "union:seed-is-the-empty-set", ok_seed, "seed predicate table: %s" % (t,), fn.loc())
-        else:
-            ob("C08.b", "union:is-a-fold", False, "%d try_fold calls" % len(tf), fn.loc())
-    # the fold step: acc ∨ item, item converted with negated = false
-    step = [c for c in F.closures_of(fn) if c.argc == 3]
-    okstep = False
-    det = "fold step closure not found"
-    for c in step:
-        ex2, ps = run_fn(c, F, BaseModel(), inline=INLINE)
-        for p in ps:
-            conv = p.calls(r"TryInto<internal::match_function::MatchFn>>::try_into$")
-            mp = p.calls(r"Result::<.*>::map::")
-            if conv and mp:
-                a = conv[0][3][0]
-                neg_false = a[0] == "tuple" and a[1][1] == ("bool", False) and S.vstr(a[1][0]) in ("arg3", "s")
-                inner = mp[0][3][1]
-                if inner[0] == "closure":
-                    # inner closure |f| MatchFn::new(move |ch| acc(ch) || f(ch))
-                    icfn = F.fns[inner[1]]
-                    ex3 = S.Engine(icfn, F, BaseModel(), cut_edges=icfn.back_edges(), inline=INLINE)
-                    ip = S.Path()
-                    ip.locals[(ex3.fid, 1)] = ("ref", ("loc", inner, ()), False)
-                    ip.locals[(ex3.fid, 2)] = ("sym", "F_ITEM")
-                    for q in ex3.run(0, ip):
-                        if q.end[0] == "return":
-                            clo = unwrap_ok(q.end[1])
-                            if clo[0] == "closure":
-                                atoms, table = truth_table(eval_closure(F, clo), lambda v: "item" if S.mentions(v, lambda x: x == ("sym", "F_ITEM")) else ("acc" if S.mentions(v, lambda x: x in (("sym", "arg2"), ("sym", "acc"))) else None))
-                                if atoms is not None:
-                                    okstep, det = compare(atoms, table, lambda e: e["acc"] or e["item"], {"acc": "P[acc]", "item": "P[item]"})
-                                    okstep = okstep and neg_false
-                                    if not neg_false:
-                                        det = "item converted with %s" % S.vstr(a)
-                                else:
-                                    det = table
-    ob("C08.b", "union:step-is-acc-or-item", okstep, det, fn.loc())
+    # the union of the items: an accumulator that starts as the empty set and, per item (all of them, in order, converted with
+    # negated = false), becomes acc ∨ item — written as try_fold with a step closure or as a loop over a mutable accumulator
+    fn, ex, paths = run(r"TryFrom<&regex_syntax::ast::ClassSetUnion>>::try_from$")
+    from .common import loop_sources
+    srcs_u = sorted(set(s_ for _, s_ in loop_sources(ex, paths)))
+    ad2 = [M.short_name(M.call_name(t)) for bb, t in fn.calls(r"Iterator>::(rev|skip|take|filter|filter_map|flat_map|step_by|skip_while|take_while|chain|zip|cycle)\b")]
+    ob("C08.b", "union:folds-over-all-items", bool(srcs_u) and all("items" in s_ for s_ in srcs_u) and not ad2, "iteration over %s; adapters %s" % (srcs_u, ad2), fn.loc())
+    n_seed = n_step = 0
+    for p in paths:
+        conv = p.calls(CONV_RX)
+        if not conv:
+            if p.end[0] == "return" and not any(e[0] == "iter-item" for e in p.events):
+                # no item: the result is the seed
+                r = p.end[1]
+                sclo = unwrap_ok(r) if r[0] == "adt" and r[2] == "Ok" else None
+                if sclo is None:
+                    continue
+                n_seed += 1
+                a_, t_ = truth_table(eval_closure(F, sclo), lambda v: None) if sclo[0] in ("closure", "fn") else (None, "seed is not a predicate closure")
+                ob("C08.b", "union:seed-is-the-empty-set", a_ == [] and t_ == {(): False}, "predicate of the union of no items: %s" % (t_,), fn.loc())
+            continue
+        a = argval(conv[0], 0)
+        cv = variant_of(ex, p, conv[0][4])
+        if cv == "Err":
+            ob("C15.e", "union:item-error-is-returned", p.end[0] == "return" and variant_of(ex, p, p.end[1]) == "Err", "item conversion failed -> %s" % p.end[0], fn.loc())
+            continue
+        if p.end[0] != "cut":
+            continue
+        n_step += 1
+        neg_false = a[0] == "tuple" and a[1][1] == ("bool", False) and "item@" in S.fstr(a[1][0])
+        # the new accumulator: the value the fold step returned, or the accumulator variable after the iteration
+        newacc = None
+        for e in p.events:
+            if e[0] == "call" and len(e) > 8 and e[8] == "desugared-iteration" and e[4] is not None:
+                newacc = e[4]
+        if newacc is None:
+            cands = [e for e in p.events if e[0] == "write" and e[2][0] == "local" and not e[3] and e[4][0] in ("adt", "closure") and "MatchFn" in S.fstr(e[4])]
+            newacc = cands[-1][4] if cands else None
+        clo = unwrap_ok(("adt", "std::result::Result", "Ok", (newacc,))) if newacc is not None else None
+        item_f = ("field", ("downcast", conv[0][4], "Ok"), "0")
+        okstep, det = False, "new accumulator not found"
+        if clo is not None and clo[0] == "closure":
+            # the step must be right for an arbitrary accumulated set, not only for the empty seed of the first iteration:
+            # the captured accumulator is replaced by a symbol
+            ups = tuple(u if S.mentions(u, lambda x: x == item_f) else ("sym", "ACC") for u in clo[2])
+            n_acc = sum(1 for u in ups if u == ("sym", "ACC"))
+            clo = ("closure", clo[1], ups)
+            atoms, table = truth_table(eval_closure(F, clo), lambda v: "item" if S.mentions(v, lambda x: x == item_f) else ("acc" if S.mentions(v, lambda x: x == ("sym", "ACC")) else None))
+            if n_acc != 1:
+                atoms, table = None, "the step closure captures %d values besides the item (expected: the accumulator)" % n_acc
+            if atoms is not None:
+                okstep, det = compare(atoms, table, lambda e: e["acc"] or e["item"], {"acc": "P[acc]", "item": "P[item]"})
+            else:
+                det = table
+        if not neg_false:
+            okstep, det = False, "item converted with %s" % S.vstr(a)[:80]
+        ob("C08.b", "union:step-is-acc-or-item", okstep, det, fn.loc())
+    ob("C08.b", "union:seed-and-step-analysed", n_seed >= 1 and n_step >= 1, "%d seed path(s), %d step path(s)" % (n_seed, n_step), fn.loc())
 
     # =============================================================== unicode classes
     fn, ex, paths = run(r"TryFrom<&regex_syntax::ast::ClassUnicode>>::try_from$", max_paths=20000)
